@@ -1136,7 +1136,7 @@ fn main() {
             let rbody = canon_body(&resp.body, rid);
             let mut hdrs = JMap::new();
             for (n, v) in &resp.headers {
-                if n.starts_with("x-") && n != "x-request-id" || n == "location" {
+                if !["content-type", "content-length", "date", "x-request-id", "transfer-encoding"].contains(&n.as_str()) {
                     hdrs.insert(n.clone(), json!(v));
                 }
             }
